@@ -206,7 +206,9 @@ theorem commentEnd_ok {sv cur nm} (x : Ctx t ⟨.commentEnd, sv, cur, nm⟩ rest
   simp only
   split
   · exact layout_move x .eatws rfl rfl rfl rfl
-  · exact layout_move x .comment rfl rfl rfl rfl
+  · split
+    · exact scratch_wf x rfl rfl (by simp) (by simp) (by simp)
+    · exact layout_move x .comment rfl rfl rfl rfl
 
 theorem string_ok {sv cur nm} (x : Ctx t ⟨.string, sv, cur, nm⟩ rest) :
     ActOK t (dString t l ⟨.string, sv, cur, nm⟩ rest c) := by
